@@ -92,7 +92,8 @@ var Properties = []Property{
 		Rules:   []string{"ANCHOR", "P1", "P2", "P3", "P4", "P5"},
 		Floors:  map[string]int{"P.exported": 6, "P.contexts": 100},
 		Explain: "Every exported function and method of the root package is evaluated in all its contexts (accepted sizes, the rejected class, ten languages and the two intervals of other Language values): every index/slice is in bounds, every integer and big.Int divisor non-zero, every shift count and make size non-negative, FillBytes buffers wide enough, map updates on non-nil maps, every loop a range or a counter moving toward its bound, no panic/log.Fatal/os.Exit/unchecked type assertion, call graph acyclic. Necessary-and-here-sufficient conditions over module code; totality of library calls under these preconditions is assumed; memory/time on huge inputs is not decided.",
-		Trusted: []string{"stdlib functions called by the package neither panic nor diverge when the checked preconditions hold", axTool, axChecker}},
+		Trusted: []string{"stdlib functions called by the package neither panic nor diverge when the checked preconditions hold", axTool, axChecker},
+		Assume:  []string{"the receiver of an exported method with a pointer receiver is not nil (a nil receiver is not among the arguments the property ranges over)"}},
 	{ID: "C15", Title: "Validation errors identify the kind of failure", Level: "proof",
 		Rules:   []string{"ANCHOR", "S2a", "S2e", "S1", "G3", "G3a", "G3e", "L3", "L2w", "T3c"},
 		Floors:  map[string]int{"S2.exits": 100, "S1.sentinels": 3},
